@@ -9,6 +9,11 @@ pub struct Operand {
     pub values: &'static [&'static str],
 }
 
+/// `[]~` (static type ()->(bool, !)) is listed only for the parameter type ()->(bool, !): its
+/// exhausted filler is the known finding C01:void-for-never; typed empty iterators are built
+/// from an empty array through a typed parameter instead (6 catalogue entries changed, and the parameter type ()->(bool, !) gets no value: functions over it are checked but not called).
+pub const EXCLUDED_KNOWN: usize = 7;
+
 pub const CATALOGUE: &[Operand] = &[
     Operand { ty: "!", values: &[] },
     Operand { ty: "any", values: &["1", "\"s\"", "[1]", "()", "(1, 2)", "mut 1", "() -> int { return 1; }"] },
@@ -59,14 +64,14 @@ pub const CATALOGUE: &[Operand] = &[
     Operand { ty: "(any)->any", values: &["(n: any) -> any { return n; }"] },
     Operand { ty: "(int, int)->int", values: &["(p: int, q: int) -> int { return p + q; }"] },
     Operand { ty: "(any, any)->any", values: &["(p: any, q: any) -> any { return p; }"] },
-    Operand { ty: "()->(bool, int)", values: &["[1, 2]~", "[]~", "() -> (bool, int) { return (false, 7); }"] },
-    Operand { ty: "()->(bool, int|string)", values: &["[1, \"a\"]~", "[]~"] },
+    Operand { ty: "()->(bool, int)", values: &["[1, 2]~", "((a: [int]) -> () -> (bool, int) { return a~; })([])", "() -> (bool, int) { return (false, 7); }"] },
+    Operand { ty: "()->(bool, int|string)", values: &["[1, \"a\"]~", "((a: [int|string]) -> () -> (bool, int|string) { return a~; })([])"] },
     Operand { ty: "()->(bool, int)|()->(bool, float)", values: &["[1, 2]~", "[1.5]~"] },
-    Operand { ty: "()->(bool, !)", values: &["[]~"] },
-    Operand { ty: "()->(bool, any)", values: &["[1, \"a\"]~", "[]~"] },
-    Operand { ty: "()->(bool, bool)", values: &["[true, false]~", "[]~"] },
-    Operand { ty: "()->(bool, string)", values: &["[\"a\", \"b\"]~", "[]~"] },
-    Operand { ty: "()->(bool, float)", values: &["[1.5, 2.5]~", "[]~"] },
+    Operand { ty: "()->(bool, !)", values: &[] },
+    Operand { ty: "()->(bool, any)", values: &["[1, \"a\"]~", "((a: [any]) -> () -> (bool, any) { return a~; })([])"] },
+    Operand { ty: "()->(bool, bool)", values: &["[true, false]~", "((a: [bool]) -> () -> (bool, bool) { return a~; })([])"] },
+    Operand { ty: "()->(bool, string)", values: &["[\"a\", \"b\"]~", "((a: [string]) -> () -> (bool, string) { return a~; })([])"] },
+    Operand { ty: "()->(bool, float)", values: &["[1.5, 2.5]~", "((a: [float]) -> () -> (bool, float) { return a~; })([])"] },
     Operand { ty: "()->(bool, int)|[int]", values: &["[1]~", "[1]"] },
     Operand { ty: "()->(bool, [int])", values: &["[[1], [2, 3]]~"] },
     Operand { ty: "()->(bool, mut int)", values: &["[mut 1, mut 2]~"] },
